@@ -88,8 +88,8 @@ CLAIMED = {
  "C09": dict(
   text=("Lean theorems over the hand-written model of bandit's own formatter logic (lean/Bandit/Format.lean; spec in lean/Bandit/Spec/Format.lean; lean/Props/C09.lean): "
         "html_roundtrip (htmlUnescape (htmlEscape s) = s for ALL strings, htmlEscape = Python's five sequential replaces) and html_no_markup (no < > \" ' survives, every & starts one of the five entities); "
-        "get_code_is_numbered_window + sarif_parse_render (SARIF parse_code undoes the '%i %s' rendering for any lines) + sarif_index_in_range_partial (snippet index in range, snippet = source line at startLine, "
-        "under the guard lmin <= range start) + NEG_sarif_negative_index (kernel-checked IndexError / wrong-line witness); one_record_per_finding (all six formats, grouped order is a permutation), "
+        "get_code_is_numbered_window + sarif_parse_render (SARIF parse_code undoes the '%i %s' rendering for any lines) + sarif_region_total (the SARIF location is produced for EVERY finding, snippet looked up safely: /repo fix bd86973) + sarif_index_in_range_partial (snippet = source line at startLine, "
+        "under the guard lmin <= range start) + FIXED_sarif_negative_index (the former IndexError / wrong-line witnesses now yield a region without snippet); one_record_per_finding (all six formats, grouped order is a permutation), "
         "six_fields_present (json,yaml,csv,xml,html: id,file,line,severity,confidence,message carried unaltered), six_fields_present_sarif_partial + NEG_sarif_line_is_range_start, six_fields_present_custom, formats_agree; "
         "grouping_stable_sorted + grouping_contiguous (JSON/YAML grouping = stable sort by file name / test name, code-point order); skipped_listed (json,yaml,sarif,html); "
         "source_text_escaped_partial (no source-derived leaf is written raw; guard: not HTML, or HTML after the proposed fix) + html_code_escaped + NEG_html_text_raw; "
